@@ -8,26 +8,29 @@ Stated multiplicatively on naturals (`k_i = S − W − P_i`):
 
 which is `num_bits ≤ Σ log2(2^P_i/p_i) + Σ log2(1 + 2^-k_i) + 2W` after taking `log2`
 (a constant of `2W`, below the `S + 2W` the property allows).  The conversion to real
-logarithms is not formalised.
+logarithms is done in `C12_rangelog.lean` (`C12_range_size_bound_log`).
+
+`MsgFits c n` (`Word::BITS · (n + 2) < 2^64`): the message is short enough for `num_bits()`,
+a `usize`, not to overflow — without it `num_bits` panics, so the hypothesis is necessary.
 -/
 namespace CV.Range
 
 theorem C12_range_size_bound {Sym : Type} {c : Cfg} (hc : RValid c) (msg : List (MStep Sym))
-    (hv : ∀ x ∈ msg, x.Valid c) :
+    (hn : MsgFits c msg.length) (hv : ∀ x ∈ msg, x.Valid c) :
     ∃ e nw, encodeMsg c (Encoder.empty c) msg = .ok e ∧
       numWords c e = .ok nw ∧ numBits c e = .ok (c.W * nw) ∧
       nw ≤ msg.length + 2 ∧
       2^(c.W * nw) * sizeA c (msg.map MStep.spec)
         ≤ 2^(2 * c.W) * sizeB c (msg.map MStep.spec) :=
-  size_bound hc msg hv
+  size_bound hc msg hn hv
 
 /-- the form with the constant `S + 2W` named in the property -/
 theorem C12_range_size_bound_S {Sym : Type} {c : Cfg} (hc : RValid c) (msg : List (MStep Sym))
-    (hv : ∀ x ∈ msg, x.Valid c) :
+    (hn : MsgFits c msg.length) (hv : ∀ x ∈ msg, x.Valid c) :
     ∃ e nb, encodeMsg c (Encoder.empty c) msg = .ok e ∧ numBits c e = .ok nb ∧
       2^nb * sizeA c (msg.map MStep.spec)
         ≤ 2^(c.S + 2 * c.W) * sizeB c (msg.map MStep.spec) := by
-  obtain ⟨e, nw, he, _, hnb, _, hle⟩ := size_bound hc msg hv
+  obtain ⟨e, nw, he, _, hnb, _, hle⟩ := size_bound hc msg hn hv
   refine ⟨e, _, he, hnb, Nat.le_trans hle (Nat.mul_le_mul_right _ ?_)⟩
   exact Nat.pow_le_pow_right (by omega) (by omega)
 
@@ -37,6 +40,7 @@ theorem C12_range_step_loss {c : Cfg} (hc : RValid c) {R : Nat} (hr : 2^(c.S - c
   step_loss hc hr
 
 example : ∀ x ∈ exMsg, x.Valid exCfg := exMsg_valid
+example : MsgFits exCfg exMsg.length := by decide
 example : sizeA exCfg (exMsg.map MStep.spec) = 2 * 100 * (7 * 16) * 1 * (1 * 128) := by decide
 example : RValid { W := 16, S := 32, P := 16, B := 16 } := by decide  -- k = 0
 
